@@ -45,27 +45,50 @@ func (s IvSet) norm() IvSet {
 
 func (s IvSet) Empty() bool { return len(s) == 0 }
 
+func (s IvSet) isNorm() bool {
+	for i := range s {
+		if s[i].Lo > s[i].Hi {
+			return false
+		}
+		if i > 0 && (s[i-1].Hi == PosInf || s[i].Lo <= s[i-1].Hi+1) {
+			return false
+		}
+	}
+	return true
+}
+
 func (s IvSet) Union(t IvSet) IvSet {
 	return append(append(IvSet{}, s...), t...).norm()
 }
 
 func (s IvSet) Intersect(t IvSet) IvSet {
+	// linear merge over normalised (sorted, disjoint) operands
+	if !s.isNorm() {
+		s = s.norm()
+	}
+	if !t.isNorm() {
+		t = t.norm()
+	}
 	var out IvSet
-	for _, a := range s {
-		for _, b := range t {
-			lo, hi := a.Lo, a.Hi
-			if b.Lo > lo {
-				lo = b.Lo
-			}
-			if b.Hi < hi {
-				hi = b.Hi
-			}
-			if lo <= hi {
-				out = append(out, Iv{lo, hi})
-			}
+	i, j := 0, 0
+	for i < len(s) && j < len(t) {
+		lo, hi := s[i].Lo, s[i].Hi
+		if t[j].Lo > lo {
+			lo = t[j].Lo
+		}
+		if t[j].Hi < hi {
+			hi = t[j].Hi
+		}
+		if lo <= hi {
+			out = append(out, Iv{lo, hi})
+		}
+		if s[i].Hi < t[j].Hi {
+			i++
+		} else {
+			j++
 		}
 	}
-	return out.norm()
+	return out
 }
 
 // Complement within (-inf,+inf).
